@@ -3,6 +3,8 @@ package pxw
 import (
 	"bytes"
 	"fmt"
+	acralogging "github.com/cossacklabs/acra/logging"
+	"github.com/sirupsen/logrus"
 	"os"
 	"strings"
 	"testing"
@@ -63,6 +65,10 @@ func TestDebugReplay(t *testing.T) {
 		for i, r := range run.Results {
 			fmt.Printf("res %d %q: err=%q ready=%v rows=%.60q msgs=%v fields=%v\n", i, script[i].SQL, r.Err, r.Ready, r.Rows, r.Messages, r.Fields)
 		}
+	}
+	if os.Getenv("VERIF_DEBUG_LOG") != "" {
+		acralogging.SetLogLevel(acralogging.LogDebug)
+		logrus.SetOutput(os.Stdout)
 	}
 	res := map[string]kernel.Property{"C04": C04{}, "C05": C05{}, "C09": C09{}, "C11": C11{}, "C19": C19{}, "C12": C12{}, "C15": C15{}, "C14": C14{}, "C01": C01{}, "C02": C02{}, "C03": C03{}, "C16": C16{}}[rp.Plan.Prop].Run(t, rp.Plan, true)
 	for _, v := range res.Violations {
